@@ -40,6 +40,52 @@ ChirpH(phase) == LET cs == CosSin(phase) IN C(cs.c, Neg(cs.s))
 BinFreq(fc, k, N, dt) == RAdd(fc, RDiv(RI(FftBin(k, N)), RMul(RI(N), dt)))
 
 (***************************************************************************)
+(* 1b. The same phase with bounded cost.  Exact rationals built from       *)
+(* doubles reach 40 limbs here and the kernel's long division is cubic, so *)
+(* trace validation evaluates the phase in a floating format: BigInt       *)
+(* mantissa cut (towards zero) to the BFL = 10 leading limbs, i.e. to      *)
+(* >= 136 significant bits, and a binary exponent.  The cancelling         *)
+(* difference f - fref is formed exactly first:                            *)
+(*     phase = K DM f (1/fref - 1/f)^2 = K DM (f - fref)^2 / (fref^2 f)    *)
+(* so only products and one quotient remain, each cut costing a relative   *)
+(* error < 2^-135.  ChirpPhaseFix returns floor(phase' * 2^75) with        *)
+(*     |phase' - phase| <= 12 * 2^-135 |phase| + 2^-75   cycles,           *)
+(* below 2^-73 cycle for |phase| < 2^60 -- 1e-22, against a comparison     *)
+(* tolerance of 2e-6.  PhaseFixAgrees (checked on sampled events by        *)
+(* Trace_Dedisp and on the lattice by MC_Dedisp) compares it with the      *)
+(* exact ChirpPhase.                                                       *)
+(***************************************************************************)
+BFL == 10
+BF(m, e) == [m |-> m, e |-> e]                                  \* m * 2^e
+BFTrunc(m, e) == LET n == Len(m.m)
+                 IN IF n <= BFL THEN BF(m, e)
+                    ELSE BF(Mk(m.n, NShiftR(m.m, n - BFL)), e + 15 * (n - BFL))
+BFOf(b) == BFTrunc(b, 0)
+BFMul(x, y) == BFTrunc(Mul(x.m, y.m), x.e + y.e)
+BFSq(x) == BFMul(x, x)
+\* floor(x / y * 2^s), y > 0
+BFQuot(x, y, s) == LET sh == x.e - y.e + s
+                   IN IF sh >= 0 THEN FloorDiv(Shl(x.m, sh), y.m)
+                      ELSE FloorDiv(x.m, Shl(y.m, -sh))
+PFBITS == 75
+\* f > 0, fref > 0
+ChirpPhaseFix(kdm, f, fref) ==
+  LET d == RSub(f, fref)
+      num == BFMul(BFMul(BFOf(kdm.p), BFSq(BFOf(d.p))), BFMul(BFSq(BFOf(fref.q)), BFOf(f.q)))
+      den == BFMul(BFMul(BFOf(kdm.q), BFSq(BFOf(d.q))), BFMul(BFSq(BFOf(fref.p)), BFOf(f.p)))
+  IN BFQuot(num, den, PFBITS)
+PhaseFixRat(v) == R(v, Pow2(PFBITS))
+PhaseFixAgrees(kdm, f, fref) ==
+  RClose(PhaseFixRat(ChirpPhaseFix(kdm, f, fref)), ChirpPhase(kdm, f, fref),
+         RAdd(RPow2(-73), RMul(RAbs(ChirpPhase(kdm, f, fref)), RPow2(-130))))
+\* K|DM| |1/fref - 1/f| * g  (g a positive Rat), times 2^s, rounded down
+ChirpSlopeFix(kdm, f, fref, g, s) ==
+  LET d == RSub(f, fref)
+      num == BFMul(BFMul(BFOf(Abs(kdm.p)), BFOf(Abs(d.p))), BFMul(BFMul(BFOf(fref.q), BFOf(f.q)), BFOf(g.p)))
+      den == BFMul(BFMul(BFOf(kdm.q), BFOf(d.q)), BFMul(BFMul(BFOf(fref.p), BFOf(f.p)), BFOf(g.q)))
+  IN BFQuot(num, den, s)
+
+(***************************************************************************)
 (* 2. Coherent dedispersion: crop to the valid times                       *)
 (***************************************************************************)
 \* non-negative BigInt -> native int, saturating at cap (a crop bound beyond
